@@ -66,6 +66,7 @@ def mode_api(spec):
     root = spec["root"]
     sys.path.insert(0, root)
     handles = {}
+    foreign = []
     strict = bool(spec.get("warnings_as_errors"))
     api_warnings = []
 
@@ -93,6 +94,24 @@ def mode_api(spec):
                 api(handles[o["h"]].uninstall)
         elif o["op"] == "import":
             importlib.import_module(o["module"])
+        elif o["op"] == "foreign_patch_begin":
+            # another tool (typeguard 2.x's import hook, beartype.claw, a coverage tool) replaces cache_from_source for
+            # a while, remembering what was there ...
+            import importlib._bootstrap_external as _be
+
+            saved = _be.cache_from_source
+
+            def _theirs(path, debug_override=None, *, optimization=None, _saved=saved):
+                return _saved(path, debug_override, optimization=optimization)
+
+            foreign.append(saved)
+            _be.cache_from_source = _theirs
+        elif o["op"] == "foreign_patch_end":
+            # ... and puts that back when it is done (dropping whatever was installed on top in the meantime)
+            import importlib._bootstrap_external as _be
+
+            if foreign:
+                _be.cache_from_source = foreign.pop()
         elif o["op"] in ("reimport", "edit_reimport"):
             m = o["module"]
             if m in sys.modules:
